@@ -2,6 +2,8 @@
 
 (O1) coq/Props/C20.v.  (O2) xargs_main in-process (recorder hook) against the extracted
 XArgs / XReplace models: which mode is in force (normalize), the batches, and the rewritten argv."""
+import os
+
 from lib import framework as fw
 from props import xargs_common as xc
 from props import known_common as kc
@@ -192,6 +194,7 @@ def run(ctx):
     no_command(ctx)
     quoted_lines(ctx)
     runs_when_read(ctx)
+    long_template(ctx)
     import tempfile, shutil, os
     os.makedirs(os.path.join(fw.BUILD, "tmp"), exist_ok=True)
     kd = tempfile.mkdtemp(prefix="c20-", dir=os.path.join(fw.BUILD, "tmp"))
@@ -257,6 +260,31 @@ def runs_when_read(ctx):
             ctx.violation("xargs -I{} sh -c 'touch done.{}': five seconds after the line 'a' was written (and before the next line) done.a %s; exit %d"
                           % ("exists" if seen else "does not exist: the line is held back until the next one has been read", rc),
                           {"property": "C20", "kind": "runs-when-read", "first_line_run_before_second_written": seen, "exit": rc})
+
+
+def long_template(ctx):
+    """a template that is long only through its occurrences of a long replacement string: it is not run as written, so it is not to be
+    held against the limits as written - neither before any input is read nor when a line is added; what is run (a few hundred short
+    arguments) is far within every limit.  The sizes sit in the head-room xargs keeps below ARG_MAX."""
+    import subprocess
+    R = "r" * 5000
+    arg_max = os.sysconf("SC_ARG_MAX")
+    env = {"PATH": "/usr/bin:/bin"}
+    n = (arg_max - 5000) // 5001 - 1               # xargs itself can just be started with this many
+    for count, data, want in ((n, b"a\nb\n", b"%d a\n%d b\n" % (n, n)), (n - 1, b"l" * 3000 + b"\nb\n", b"%d 3000\n%d 1\n" % (n - 1, n - 1))):
+        argv = [fw.XARGS, "-I", R, "/bin/sh", "-c", 'echo "$# ${#1}"' if data.startswith(b"l") else 'echo "$# $1"', "sh"] + [R] * count
+        try:
+            p = subprocess.run(argv, input=data, stdout=subprocess.PIPE, stderr=subprocess.PIPE, env=env, timeout=120)
+        except OSError as e:
+            ctx.count(("long-template", count, "not-started"), False, "long-template-not-started")
+            ctx.log["long_template_skipped"] = str(e)
+            continue
+        ctx.count(("long-template", count), True, "long-template")
+        if p.returncode != 0 or p.stdout != want:
+            ctx.violation("xargs -I R CMD R x%d (R of 5000 bytes) on %d input bytes: exit %d, output %r, stderr %r; expected %r: the command line that is run is short"
+                          % (count, len(data), p.returncode, p.stdout[:60], p.stderr[:100], want),
+                          {"property": "C20", "kind": "long-template", "occurrences": count, "replace_len": 5000, "input": fw.hexs(data), "exit": p.returncode,
+                           "stdout": fw.hexs(p.stdout[:200]), "stderr": p.stderr.decode("utf-8", "replace")[:200]})
 
 
 def no_command(ctx):
